@@ -61,7 +61,7 @@ def psObs (bos : Bool) : Obs (PS Int) :=
   { internal := fun s => jarr (s.active.map optNat), nstore := fun s => s.nlen,
     probeGate := fun s ms => s.gate 0 ms, probeMeas := fun s ms => s.measure ms,
     probeDel := fun s ms => s.delMode ms,
-    stateModes := fun s ms => if bos then .error .value else s.stateModesG ms }
+    stateModes := fun s ms => if bos then s.stateModesB ms else s.stateModesG ms }
 
 def beJson {B} (o : BackendOps Int B) (ob : Obs B) (b : B) : List (String × Json) :=
   [("gm", natList (o.getModes b)), ("internal", ob.internal b), ("nstore", jnat (ob.nstore b)),
@@ -91,6 +91,15 @@ def runHistJson {B} (o : BackendOps Int B) (ob : Obs B) (n0 : Nat) (evs : List J
       match Prog.fresh (← getNat j "n") with
       | .ok p => s := { s with prog := p }; out := out.push (Json.mkObj (("r", Json.str "ok") :: progJson p))
       | .error er => out := out.push (Json.mkObj (("r", Json.str (errStr er)) :: progJson s.prog))
+    else if e == "resetkeep" then
+      -- `eng.reset()` while the user keeps building on `Program(prev)` (its register may have holes)
+      s := { s with prev := none, be := o.reset s.be }
+      out := out.push (Json.mkObj ((("r", Json.str "ok") :: progJson s.prog) ++ beJson o ob s.be))
+    else if e == "use" && getBoolD j "all" false then
+      -- `All(Xgate(k)) | ms`
+      match s.prog.allOp (← getRefs j "ms") (← getInt j "k") with
+      | .ok p => s := { s with prog := p }; out := out.push (Json.mkObj (("r", Json.str "ok") :: progJson p))
+      | .error er => out := out.push (Json.mkObj (("r", Json.str (errStr er)) :: progJson s.prog))
     else if e == "poke" then
       -- append to the program that has just been run (it is locked); nothing is kept
       let locked := s.prog.lock
@@ -108,6 +117,7 @@ def runHistJson {B} (o : BackendOps Int B) (ob : Obs B) (n0 : Nat) (evs : List J
         | "reset" => pure (Ev.reset (← getNat j "n"))
         | _ => throw s!"unknown event {e}"
       let ranReg := s.prog.register
+      let ranCircuit := s.prog.circuit
       match step o s ev with
       | .error er =>
         out := out.push (Json.mkObj (("r", Json.str (errStr er)) :: progJson s.prog))
@@ -119,7 +129,7 @@ def runHistJson {B} (o : BackendOps Int B) (ob : Obs B) (n0 : Nat) (evs : List J
           let n ← getNat j "n"
           fields := fields ++ [("new", natList (List.range' (s'.prog.regRefs.length - n) n))]
         if e == "end" || e == "reset" then
-          fields := fields ++ beJson o ob s'.be ++ [("ranReg", natList ranReg)]
+          fields := fields ++ beJson o ob s'.be ++ [("ranReg", natList ranReg), ("skeys", natList (samplesKeys ranCircuit))]
           let probes := (getArr j "probe").toOption.getD []
           let ps ← probes.mapM (probeJson o ob s'.be)
           let qs := (getArr j "modes").toOption.getD []
